@@ -1,6 +1,6 @@
 #!/usr/bin/env python3
 """Apply every seeded change under seeded/ to /repo in turn, run the quick check of its property, undo the change, and
-record whether the check reported it (development aid; /repo is always restored).  Usage: tools/run_seeded.py [pattern] [--update]"""
+record whether the check reported it (development aid; /repo is always restored).  Usage: tools/run_seeded.py [pattern] [--update] [--replay]"""
 import os, sys, json, subprocess, re
 V = os.path.dirname(os.path.dirname(os.path.abspath(__file__)))
 REPO = '/repo'
@@ -24,9 +24,19 @@ def main():
         finally:
             subprocess.run(['git', '-C', REPO, 'checkout', '--', '.'], check=True)
         vio = [l for l in p.stdout.split('\n') if l.startswith('VIOLATION')]
+        rep = ''
+        if '--replay' in sys.argv and vio and not vio[0].endswith('no-failing-input-found'):
+            # the replay file reproduces the violation on the changed tree and passes on the restored tree
+            rp = re.search(r'replay=(\S+)', vio[0]).group(1); keep = rp + '.seeded'; os.replace(rp, keep)
+            a2 = subprocess.run(['git', '-C', REPO, 'apply', os.path.join(d, 'patch.diff')], capture_output=True, text=True)
+            try: r1 = subprocess.run([os.path.join(V, 'check'), pid, '--replay', keep], capture_output=True, text=True, cwd=V)
+            finally: subprocess.run(['git', '-C', REPO, 'checkout', '--', '.'], check=True)
+            r2 = subprocess.run([os.path.join(V, 'check'), pid, '--replay', keep], capture_output=True, text=True, cwd=V)
+            rep = ' replay:%s/%s' % ('fails-on-change' if r1.returncode == 1 else 'PASSES-ON-CHANGE', 'passes-on-original' if r2.returncode == 0 else 'FAILS-ON-ORIGINAL')
+            os.unlink(keep)
         res = 'caught' if p.returncode == 1 and vio else 'MISSED'
         if vio and vio[0].endswith('no-failing-input-found'): res = 'caught-no-input'
-        print(name, res, flush=True); rows.append((name, res))
+        print(name, res + rep, flush=True); rows.append((name, res))
         if update:
             if 'first_run_check_exit' not in meta and (meta.get('check_exit') != p.returncode or (meta.get('check_output') or '').endswith('no-failing-input-found') != (res == 'caught-no-input')):
                 meta['first_run_check_exit'] = meta.get('check_exit'); meta['first_run_check_output'] = meta.get('check_output')
